@@ -53,7 +53,7 @@ CORE_SPECS = [
 # no '.' here: write_diag_str marks the position inside an item with ". ", which cannot be told from a term named "." when the text is read back
 WIDE_CHARS = [c for c in 'abcdefghijklmnopqrstuvwxyzABCDEFGHIJKLMNOPQRSTUVWXYZ0123456789!#$%&*+,-/:;<=>?@^_`|~[]{}']
 
-def wide_grammars():
+def wide_grammars(heavy=False):
     """grammars with more than 64 terms / nonterminals: the bit sets over terms and nonterminals span several machine words"""
     out = []
     # (1) 80 terms: S -> L ; L -> eps | L I ; I -> t_k t_(k+1) | '(' L ')' for many k, with lookahead-dependent reductions
@@ -82,14 +82,23 @@ def wide_grammars():
         rules += [Rule(0, [('t', a), ('n', 1), ('t', c)]), Rule(0, [('t', a), ('n', 2), ('t', d)]), Rule(0, [('t', b), ('n', 2), ('t', c)]), Rule(0, [('t', b), ('n', 1), ('t', d)])]
     rules += [Rule(1, [('t', 70)]), Rule(2, [('t', 70)])]
     g = Grammar(nts, terms, rules, 0, note='core:wide-lr1-not-lalr'); out.append(g)
+    # (4) long rules (up to 12 symbols) with nullable symbols inside, next to very short ones
+    g = simple('S->a B c D e F g H i J k L | m S n\nB->b | eps\nD->d D | eps\nF->f\nH->h | eps\nJ->j J | eps\nL->l'); g.note = 'core:long-rules'; out.append(g)
+    g = simple('S->A B C D E F G H z | y\nA->a | eps\nB->b | eps\nC->c | eps\nD->d | eps\nE->e | eps\nF->f | eps\nG->g | eps\nH->h | eps'); g.note = 'core:long-rule-of-nullables'; out.append(g)
+    # (5) many rules: 60 alternatives of one nonterminal plus two list nonterminals
+    alts = []
+    for i, c in enumerate('abcdefghijklmnopqrst'):
+        alts.append('%s A %s' % (c, 'uvw'[i % 3])); alts.append('%s %s B !' % (c, c)); alts.append('%s #' % c)
+    g = simple('S->' + ' | '.join(alts) + '\nA->S ; | ;\nB->B , S | S'); g.note = 'core:many-rules'
+    if heavy: out.append(g)      # 616 states: minutes of compile time, thorough tier only
     return out
 
-def core_grammars(wide=False):
+def core_grammars(wide=False, heavy=False):
     out = []
     for name, spec in CORE_SPECS:
         g = simple(spec); g.note = 'core:' + name
         out.append(g)
-    if wide: out += wide_grammars()
+    if wide: out += wide_grammars(heavy)
     return out
 
 # ------------------------------------------------------------------ random grammars
@@ -335,7 +344,8 @@ def decorate(g, rnd, typed=0.25, dflt=0.25, vtypes=True, strings=0.2, ctx=0.0, r
     """vary value types, default functors, typed terms, string terms, contextual functors (structure unchanged)"""
     g = clone(g)
     if vtypes:
-        g.vtypes = [rnd.choice(['V', 'V', 'V', 'W', 'I']) for _ in g.nts]
+        g.vtypes = [rnd.choice(['V', 'V', 'V', 'W', 'I', 'N'] if rnd.random() < 0.5 else ['V', 'V', 'V', 'W', 'I']) for _ in g.nts]
+        g.ttstate = rnd.random() < 0.5
     used = {t.text for t in g.terms}
     if regexes:
         firsts = set()
@@ -357,6 +367,9 @@ def decorate(g, rnd, typed=0.25, dflt=0.25, vtypes=True, strings=0.2, ctx=0.0, r
             g.terms[j].typed = True if rnd.random() < 0.8 else 'n'      # 'n': functor create<no_type>{} (value type term_value<no_type>)
     for i, r in enumerate(g.rules):
         vt = g.vtypes[r.lhs]
+        if vt == 'N':
+            if ctx and rnd.random() < ctx: g.rules[i] = Rule(r.lhs, r.rhs, r.prec, 'x')
+            continue
         if rnd.random() < dflt:
             if vt in ('V', 'W'):
                 g.rules[i] = Rule(r.lhs, r.rhs, r.prec, 'd')
@@ -364,9 +377,9 @@ def decorate(g, rnd, typed=0.25, dflt=0.25, vtypes=True, strings=0.2, ctx=0.0, r
                 g.rules[i] = Rule(r.lhs, r.rhs, r.prec, 'd')
         elif ctx and rnd.random() < ctx:
             g.rules[i] = Rule(r.lhs, r.rhs, r.prec, 'x')
-        elif vt in ('V', 'W') and rnd.random() < 0.12 and any(o != vt for o in g.vtypes):
+        elif vt in ('V', 'W') and rnd.random() < 0.12 and any(o != vt and o in ('V', 'W', 'I') for o in g.vtypes):
             # converting functor: returns another value type of this grammar, from which the left side is then constructed
-            g.rules[i] = Rule(r.lhs, r.rhs, r.prec, 'c' + rnd.choice([o for o in g.vtypes if o != vt]))
+            g.rules[i] = Rule(r.lhs, r.rhs, r.prec, 'c' + rnd.choice([o for o in g.vtypes if o != vt and o in ('V', 'W', 'I')]))
         elif vt == 'I' and rnd.random() < 0.3 and any(sy[0] == 't' and g.terms[sy[1]].kind == 'c' and not g.terms[sy[1]].typed for sy in r.rhs[:9]):
             # helper _eK picking a char term: the left side (long) is constructed from term_value<char>
             ks = [k for k, sy in enumerate(r.rhs[:9]) if sy[0] == 't' and g.terms[sy[1]].kind == 'c' and not g.terms[sy[1]].typed]
